@@ -112,7 +112,7 @@ fn run(instance: &Tsp, seed: u64, min_max: bool, tau0: f64, alpha: f64) -> u64 {
                 let base = evaporated[i][j].clamp(tmin, tmax);
                 if reward[i][j] == 0.0 {
                     if i != j && (x - base).abs() > tol(base) { fail(it, format!("un-rewarded trail ({i}, {j}) is {x}, expected the evaporated value {} limited to the bounds", evaporated[i][j])) }
-                } else if x < base - tol(base) || x > (base + reward[i][j]).min(tmax) + tol(base) || (x <= base && base < tmax) {
+                } else if x < base - tol(base) || x > (base + reward[i][j]).min(tmax) + tol(base) || (x <= base && base < tmax && base + reward[i][j] > base) {   // (a reward below the resolution of the trail is absorbed by rounding)
                     fail(it, format!("rewarded trail ({i}, {j}) is {x}; evaporated value {} , reward {}", evaporated[i][j], reward[i][j]))
                 }
             }
@@ -128,11 +128,12 @@ pub fn c19_native_ant_colony() {
     let mixed: Vec<Vec<f64>> = (0..6).map(|i: usize| (0..6).map(|j: usize| if i == j { 1.0e9 } else { 1.0 + ((i * 7 + j * 7 + i * j) % 5) as f64 }).collect()).collect();
     let mut cases = 0u64;
     // the same two instances at other length scales (tour lengths far below and far above 1: "an amount inversely proportional
-    // to tour length" must hold there too), and the smallest instances (2 and 3 cities)
+    // to tour length" must hold there too; at 1e200 the heuristic factor (1/d)^beta underflows to 0 for every edge), and the
+    // smallest instances (2 and 3 cities)
     let scaled = |m: &Vec<Vec<f64>>, f: f64| -> Vec<Vec<f64>> { m.iter().enumerate().map(|(i, r)| r.iter().enumerate().map(|(j, v)| if i == j { *v } else { v * f }).collect()).collect() };
     let tiny: Vec<Vec<f64>> = vec![vec![1.0e9, 0.3], vec![0.3, 1.0e9]];
     let three: Vec<Vec<f64>> = vec![vec![1.0e9, 2.0, 0.5], vec![2.0, 1.0e9, 4.0], vec![0.5, 4.0, 1.0e9]];
-    let instances = vec![Tsp { d: scaled(&line, 0.01) }, Tsp { d: scaled(&mixed, 1.0e-4) }, Tsp { d: scaled(&line, 1.0e3) }, Tsp { d: tiny }, Tsp { d: three }, Tsp { d: line }, Tsp { d: mixed }];
+    let instances = vec![Tsp { d: scaled(&line, 1.0e200) }, Tsp { d: scaled(&line, 0.01) }, Tsp { d: scaled(&mixed, 1.0e-4) }, Tsp { d: scaled(&line, 1.0e3) }, Tsp { d: tiny }, Tsp { d: three }, Tsp { d: line }, Tsp { d: mixed }];
     for instance in instances {
         for seed in 0..4u64 {
             // ant system with the pheromone exponent alpha in {1, 0 (pure heuristic sampling), 0.25, 2}: the greedy tour follows the
